@@ -21,6 +21,25 @@ non-trivial = every case; distinct = hash of the input",
     }
 }
 
+/// labels that real zones use and that code is tempted to treat specially
+pub const VOCAB: &[&str] = &["local", "LOCAL", "arpa", "ARPA", "in-addr", "ip6", "254", "169", "8", "e", "f", "_tcp", "_udp", "_services", "_dns-sd", "_sub",
+    "b", "db", "lb", "r", "dr", "localhost", "invalid", "test", "example", "onion", "home", "com", "a"];
+
+/// the `cur`-th name of 1..4 labels over VOCAB (None past the end)
+pub fn vocab_name(cur: u64) -> Option<Vec<&'static str>> {
+    let n = VOCAB.len() as u64;
+    let (mut k, mut len, mut span) = (cur, 1usize, n);
+    while k >= span {
+        k -= span;
+        span *= n;
+        len += 1;
+        if len > 4 {
+            return None;
+        }
+    }
+    Some((0..len).map(|i| VOCAB[((k / n.pow(i as u32)) % n) as usize]).collect())
+}
+
 fn label_ok(p: &[u8]) -> bool {
     if p.is_empty() || p.len() > 63 {
         return false;
@@ -169,6 +188,72 @@ pub fn run(ctx: &mut Ctx) {
                 ctx.add("length_boundary_names", 1);
                 check_string(ctx, "lengths", idx, &s);
                 check_string(ctx, "lengths", idx, &format!("{}.", s));
+                // empty labels cost nothing in the encoded form: the text may be longer than 255 characters
+                for extra in [1usize, 2, 5, 12, 300] {
+                    check_string(ctx, "lengths", idx, &format!("{}{}", s, ".".repeat(extra)));
+                    check_string(ctx, "lengths", idx, &format!("{}{}", ".".repeat(extra), s));
+                    check_string(ctx, "lengths", idx, &s.replace('.', &".".repeat(extra + 1)));
+                }
+                ctx.add("length_boundary_names_with_redundant_dots", 15);
+            }
+        }
+    }
+    if ctx.family_active("lengths") {
+        // short names in long texts
+        for (i, extra) in [250usize, 254, 255, 256, 300, 1000, 70_000].iter().enumerate() {
+            let idx = 10_000 + i as u64;
+            if !ctx.take("lengths", idx) {
+                continue;
+            }
+            check_string(ctx, "lengths", idx, &format!("a{}local", ".".repeat(*extra)));
+            check_string(ctx, "lengths", idx, &format!("{}a.b", ".".repeat(*extra)));
+            check_string(ctx, "lengths", idx, &format!("a.b{}", ".".repeat(*extra)));
+            check_string(ctx, "lengths", idx, &".".repeat(*extra));
+        }
+    }
+    // names made of the labels real zones use (the special-use and infrastructure names of RFC 6761, 6762, 6763, 3596, 1035):
+    // code that treats one of them specially must still follow the plain rules above
+    if ctx.family_active("vocab") {
+        let n = VOCAB.len() as u64;
+        let total = n + n * n + n * n * n + n * n * n * n;
+        let step = if ctx.slow_tool { 997 } else { ctx.tier.pick(7u64, 1u64) };
+        let mut idx = 0u64;
+        while idx < total {
+            let cur = idx;
+            idx += step;
+            if !ctx.take("vocab", cur) {
+                continue;
+            }
+            let labels = vocab_name(cur).unwrap();
+            let len = labels.len();
+            let text = labels.join(".");
+            check_string(ctx, "vocab", cur, &text);
+            let case = || json!({"family": "vocab", "idx": cur, "string": text});
+            let cut = (cur % len as u64) as usize;
+            let suffix = labels[cut..].join(".");
+            let r = monitor::guard(|| {
+                let a = Name::new(&text).unwrap();
+                let b = Name::new(&suffix).unwrap();
+                let o = a.clone().into_owned();
+                (a.is_link_local(), o.is_link_local(), a.is_subdomain_of(&b), b.is_subdomain_of(&a), a.without(&b).map(|n| bridge::obs_name(&n)), a.iter().count(), a.is_subdomain_of(&a))
+            });
+            let want_ll = labels.last().map(|l| l.eq_ignore_ascii_case("local")).unwrap_or(false);
+            let want_without: Option<Vec<Vec<u8>>> = if cut > 0 { Some(labels[..cut].iter().map(|l| l.as_bytes().to_vec()).collect()) } else { None };
+            match r {
+                Err(pn) => ctx.panic_violation("inspection of a name made of well-known labels", &pn, case()),
+                Ok((ll, oll, sub, rsub, without, count, self_sub)) => {
+                    if ll != want_ll || oll != want_ll {
+                        ctx.violation("link-local", "is_link_local-differs", format!("{:?}.is_link_local() = {} (owned copy: {})", text, ll, oll), case());
+                    } else if sub != (cut > 0) || rsub || self_sub {
+                        ctx.violation("suffix-algebra", "is_subdomain_of-differs", format!("{:?} vs its suffix {:?}: {} / reverse {} / self {}", text, suffix, sub, rsub, self_sub), case());
+                    } else if without != want_without {
+                        ctx.violation("suffix-algebra", "without-differs", format!("{:?}.without({:?}) = {:?}", text, suffix, without), case());
+                    } else if count != len {
+                        ctx.violation("labels", "labels-differ-from-pieces", format!("{:?} iterates {} labels", text, count), case());
+                    } else {
+                        ctx.count("vocabulary_names_as_expected");
+                    }
+                }
             }
         }
     }
